@@ -393,7 +393,7 @@ func genRrCase(r *Rand, nFields int, acPct int, hintPct int, nOps int, nScanners
 	return c
 }
 
-const rrRule = "seeded roaring cases: 1..5 configured fields (0 fields rarely), document sets as in C01 with ids up to +-(2^55-1), operation sequences over 1..4 scanners sharing one index (Reset, WithHint with known/unknown/out-of-range ids, Retrieve, RetrieveDocs, GetRawResult, also without Reset in between; a third more cases over a pattern-container field; a third more cases with failing retrievals (unsupported value on one field) injected on other scanners); document ids added again with other or fewer conjunctions (outside the specification's domain: decided by the model leg), indexes of catch-all documents only, include lists that are empty; the hint ids are passed from a caller's buffer that is refilled with other ids as soon as WithHint has returned; non-trivial = some retrieval returns a non-empty proper subset of the accepted documents; distinct = distinct input"
+const rrRule = "seeded roaring cases: 1..5 configured fields (0 fields rarely), document sets as in C01 with ids up to +-(2^55-1), operation sequences over 1..4 scanners sharing one index (Reset, WithHint with known/unknown/out-of-range ids, Retrieve, RetrieveDocs, GetRawResult, also without Reset in between; a third more cases over a pattern-container field; a third more cases with failing retrievals (unsupported value on one field) injected on other scanners); document ids added again with other or fewer conjunctions (outside the specification's domain: decided by the model leg), indexes of catch-all documents only, include lists that are empty; the hint ids are passed from a caller's buffer that is refilled with other ids as soon as WithHint has returned; fields named by the dense id allocator queried with typed lists holding unknown texts; indexes without any include expression queried on no configured field under hints with unknown and negative ids; non-trivial = some retrieval returns a non-empty proper subset of the accepted documents; distinct = distinct input"
 
 func init() {
 	mk := func(hintPct int, zeroFields bool) func(tier string, r *Rand, add func(in interface{})) {
@@ -506,6 +506,45 @@ func init() {
 				c.Docs = []eDoc{{ID: 1, Cons: []eConj{{{F: 0, Inc: true, V: tvSlice("[]int")}}}}, {ID: 2, Cons: []eConj{{{F: 0, Inc: true, V: tvSlice("[]string")}}, {}}}}
 				for i, q := range [][]eAssign{nil, {{F: 0, V: tvInt("int", 30)}}, {{F: 1, V: tvStr("x")}}} {
 					c.Ops = append(c.Ops, rOp{S: 0, Op: "reset"}, rOp{S: 0, Op: []string{"retrieve", "docs"}[i%2], A: q}, rOp{S: 0, Op: "raw"})
+				}
+				add(c)
+			}
+			// a field named by the DENSE id allocator (the first text it sees gets id 0): assignments as typed lists that
+			// hold a text no document mentions must not be read as that first text
+			{
+				c := rCase{Fields: []rField{{F: 0, Cont: "default", Parser: "dense"}, {F: 1, Cont: "default", Parser: "dense"}}}
+				c.Docs = []eDoc{
+					{ID: 1, Cons: []eConj{{{F: 0, Inc: true, V: tvStr("bj")}}}},
+					{ID: 2, Cons: []eConj{{{F: 0, Inc: true, V: tvSlice("[]string", tvStr("sh"), tvStr("bj"))}, {F: 1, Inc: true, V: tvSlice("[]int64", tvInt("int64", 30), tvInt("int64", 40))}}}},
+					{ID: 3, Cons: []eConj{{{F: 0, Inc: false, V: tvStr("bj")}}}},
+					{ID: 4, Cons: []eConj{{{F: 1, Inc: false, V: tvInt("int64", 30)}, {F: 0, Inc: true, V: tvStr("sh")}}}},
+				}
+				for i, q := range [][]eAssign{
+					{{F: 0, V: tvSlice("[]string", tvStr("gz"))}}, {{F: 0, V: tvSlice("[]string", tvStr("sh"), tvStr("gz"))}}, {{F: 0, V: tvStr("gz")}}, {{F: 0, V: tvList(tvStr("gz"))}},
+					{{F: 1, V: tvSlice("[]int64", tvInt("int64", 50))}, {F: 0, V: tvStr("sh")}}, {{F: 1, V: tvSlice("[]int", tvInt("int", 50), tvInt("int", 40))}, {F: 0, V: tvSlice("[]string", tvStr("xx"), tvStr("sh"))}},
+					{{F: 0, V: tvSlice("[]string", tvStr("bj"))}}, {{F: 1, V: tvSlice("[]json.Number", tvJSON("77"))}},
+				} {
+					c.Ops = append(c.Ops, rOp{S: 0, Op: "reset"}, rOp{S: 0, Op: []string{"retrieve", "docs"}[i%2], A: q}, rOp{S: 0, Op: "raw"})
+				}
+				add(c)
+			}
+			// an index where NO field has an include expression (match-all and exclude-only documents), queries that mention
+			// no configured field, hints with unknown and negative ids: the hint restricts, it never adds
+			{
+				c := rCase{Fields: []rField{{F: 0, Cont: "default"}, {F: 1, Cont: "default"}}}
+				c.Docs = []eDoc{
+					{ID: 1, Cons: []eConj{{}}},
+					{ID: 2, Cons: []eConj{{{F: 0, Inc: false, V: tvSlice("[]int", tvInt("int", 1))}}, {{F: 1, Inc: false, V: tvSlice("[]int", tvInt("int", 2))}}}},
+					{ID: 3, Cons: []eConj{{{F: 0, Inc: false, V: tvSlice("[]int", tvInt("int", 3))}}}},
+				}
+				for i, q := range [][]eAssign{nil, {{F: 7, V: tvStr("android")}}, {{F: 0, V: tvNil()}}, {{F: 0, V: tvInt("int", 1)}}, {{F: 1, V: tvInt("int", 9)}}} {
+					for _, hs := range [][]int64{{2, 3, 77, -4}, {1}, {77}, nil} {
+						c.Ops = append(c.Ops, rOp{S: 0, Op: "reset"})
+						if hs != nil {
+							c.Ops = append(c.Ops, rOp{S: 0, Op: "hint", Hint: hs})
+						}
+						c.Ops = append(c.Ops, rOp{S: 0, Op: []string{"retrieve", "docs"}[i%2], A: q}, rOp{S: 0, Op: "raw"})
+					}
 				}
 				add(c)
 			}
